@@ -237,6 +237,28 @@ def parseU64 (s : List Nat) : Option Nat :=
     if c = 43 then (if rest = [] then none else parseDigits rest 0)
     else parseDigits s 0
 
+/-! ## The per-loader file cache -/
+
+/-- The per-loader cache of `FileLoader` / `MmapLoader`: a `HashMap<PathBuf, _>`.  `PathBuf`'s
+`Eq`/`Hash` compare *component lists*, so the key is `components location`. -/
+abbrev Cache := List (List Comp × List Nat)
+
+def cacheFind : Cache → List Comp → Option (List Nat)
+  | [], _ => none
+  | (k', f) :: r, k => if k' = k then some f else cacheFind r k
+
+/-- `get_or_open_file` / `get_or_open_mmap`: allow-list, cache lookup by `PathBuf` key,
+otherwise `File::open(dir.push(location))` (`openf`, `none` = the OS refuses) and insert. -/
+def getOrOpen (cache : Cache) (openf : List Nat → Option (List Nat)) (loc : List Nat) :
+    Except LoadErr (List Nat × Cache) :=
+  if !allowed loc then .error .disallowed
+  else match cacheFind cache (components loc) with
+    | some f => .ok (f, cache)
+    | none =>
+      match openf loc with
+      | none => .error .notFound
+      | some f => .ok (f, (components loc, f) :: cache)
+
 /-! ## The whole external-data path -/
 
 /-- The three `DataLoader` implementations. -/
